@@ -893,37 +893,50 @@ package valid
 // it holds initially (empty cache) and every entry point re-establishes it.
 
 //@ func Struct
+//@   never_calls [C11 C12 C16 percall.registry] SetCustomerValidFn SetStructTypeCache
 //@   at call SetRule#0 assert [C16 struct.unscoped] len(arg2) == 0
 //@   requires cache.inv()
 //@   ensures [C08 entry.inv] cache.inv()
 //@ func StructForFn
+//@   never_calls [C11 C12 C16 percall.registry] SetCustomerValidFn SetStructTypeCache
 //@   requires cache.inv()
 //@   ensures [C08 entry.inv] cache.inv()
 //@ func StructForFns
+//@   never_calls [C11 C12 C16 percall.registry] SetCustomerValidFn SetStructTypeCache
 //@   requires cache.inv()
 //@   ensures [C08 entry.inv] cache.inv()
 //@   loop#0 invariant vs.ok(vs) && cache.inv()
 //@ func NestedStructForRule
+//@   never_calls [C11 C12 C16 percall.registry] SetCustomerValidFn SetStructTypeCache
 //@   requires cache.inv()
 //@   requires [C13 setrule.key] forall(k Iface :: {has(ruleMap, k)} has(ruleMap, k) ==> k != nil)
 //@   ensures [C08 entry.inv] cache.inv()
 //@   loop#0 invariant vs.ok(vs) && cache.inv() && rng.pos(0) >= 0 && rng.pos(0) <= rng.len(0)
 //@ func ValidateStruct
+//@   never_calls [C11 C12 C16 percall.registry] SetCustomerValidFn SetStructTypeCache
 //@   requires cache.inv()
 //@   ensures [C08 entry.inv] cache.inv()
 //@ func ValidStructForRule
+//@   never_calls [C11 C12 C16 percall.registry] SetCustomerValidFn SetStructTypeCache
 //@   requires cache.inv()
 //@   ensures [C08 entry.inv] cache.inv()
 //@ func ValidStructForMyValidFn
+//@   never_calls [C11 C12 C16 percall.registry] SetCustomerValidFn SetStructTypeCache
 //@   requires cache.inv()
 //@   ensures [C08 entry.inv] cache.inv()
 //@ func Map
+//@   never_calls [C11 C12 C16 percall.registry] SetCustomerValidFn SetStructTypeCache
 //@ func MapFn
+//@   never_calls [C11 C12 C16 percall.registry] SetCustomerValidFn SetStructTypeCache
 //@   loop#0 invariant vm.ok(obj)
 //@ func Var
+//@   never_calls [C11 C12 C16 percall.registry] SetCustomerValidFn SetStructTypeCache
 //@ func VarForFn
+//@   never_calls [C11 C12 C16 percall.registry] SetCustomerValidFn SetStructTypeCache
 //@ func Url
+//@   never_calls [C11 C12 C16 percall.registry] SetCustomerValidFn SetStructTypeCache
 //@ func UrlForFn
+//@   never_calls [C11 C12 C16 percall.registry] SetCustomerValidFn SetStructTypeCache
 
 // ---------------------------------------------------------------------------
 // in / include / re / ints / unique / datetime: safety and at-most-one clause (C13, C02); verdicts see C05 section
